@@ -5,7 +5,7 @@
        order, on where the contour starts, on repeated vertices - and every
        non-coplanar subset condemns the whole contour. *)
 From Coq Require Import String ZArith List Bool QArith Lia Permutation.
-From HD Require Import Base.Val C13_Model C13_Proofs.
+From HD Require Import Base.Val C13_Model C13_Proofs C13_Proofs_Num.
 Import ListNotations.
 Open Scope list_scope.
 
@@ -96,4 +96,33 @@ Lemma noncoplanar_anywhere : forall (bad : list v3),
 Proof.
   intros bad Hb ps Hi. destruct (coplanar_v ps) eqn:E; [|reflexivity].
   rewrite (coplanar_incl ps bad Hi E) in Hb. discriminate.
+Qed.
+
+(* ---------- (c) NumContentItem built from an int (after the fix of D111) ---------- *)
+(* whatever the size of the int: the attributes the constructor writes - with
+   FloatingPointValue exactly when the decimal string does not fit - are read
+   back as the same value, by the accessors and by from_dataset *)
+Lemma num_int_roundtrip : forall z n r u ql,
+  let v := num_of_int z u ql in
+  let t := Item NumContentItem n r v [] in
+  read_value NumContentItem (item_attrs n r v []) = Ok v /\
+  parse (Some NumContentItem) (to_ds t) = Ok t /\
+  (r <> None -> parse None (to_ds t) = Ok t).
+Proof.
+  intros z n r u ql v t.
+  assert (Hwf : wf t).
+  { apply wf_unfold. split; [reflexivity|]. split; [exact I|]. constructor. }
+  split; [exact (accessor_identity n r v [] I)|].
+  destruct (parse_serialise t Hwf) as [H1 H2]. split; [exact H1|exact H2].
+Qed.
+
+(* FloatingPointValue is written iff the decimal string has more than 16 characters *)
+Lemma num_int_float_iff : forall z, num_int_has_float z = true <-> (z <= - 10 ^ 15 \/ 10 ^ 16 <= z)%Z.
+Proof.
+  intros z. unfold num_int_has_float. pose proof (C13_Proofs_Num.num_int_exact_spec z) as H.
+  destruct (num_int_exact z); cbn [negb]; split; intros H0; try discriminate; try reflexivity.
+  - assert (- 10 ^ 15 < z < 10 ^ 16)%Z by (apply H; reflexivity). lia.
+  - destruct (Z_lt_le_dec (- 10 ^ 15) z) as [L|L]; [|lia].
+    destruct (Z_lt_le_dec z (10 ^ 16)) as [L2|L2]; [|lia].
+    assert (false = true) by (apply H; lia). discriminate.
 Qed.
